@@ -39,13 +39,12 @@ def audit_second(run):
 def main(run):
     info = proof_stage(run, "T08", extra_targets=["corr/T06_corr.vo", "corr/T07_corr.vo"])
     info2, ok2 = audit_second(run)
+    run.notes["props_files"] = {"coq/props/T08.v": len(info["theorems"]), "coq/props/%s.v" % SECOND: len(info2["theorems"])}
     # one list of theorems in the evidence; the second file counts only if its own audit passed
     if info.get("ok") and info.get("closed_ok") and ok2:
         info["theorems"] = info["theorems"] + info2["theorems"]
     elif not ok2:
         info["closed_ok"] = False
-    run.notes["props_files"] = {"coq/props/T08.v": len(info2 and info["theorems"]) - (len(info2["theorems"]) if ok2 else 0),
-                                "coq/props/%s.v" % SECOND: len(info2["theorems"])}
     run.notes["rests_on"] = ("the correspondence of T06 / T07 (real binary vs run_console / run_files / run7_*), exercised below; "
                              "the per-property correspondences are exercised by ./check Cxx")
     st = T.run_stage(run)
